@@ -90,6 +90,13 @@ CLAIMED = {
          "arguments are from, to(+1 iff inclusive), step default 1; implicit return is requested only for a declared return type and the pending flags are reset "
          "for children; printing never regroups operators (C10) and the annotate flag reaches annotations only (C11).",
          "Equality of observable behaviour is not decided. Known findings: D34 (`?` printed as `or`), D35 (slice ends off by one), D36 (inclusive range with negative step), D2c (explicit parentheses on same-level right operands).", "5/C01"),
+ "C02": ("template instantiation against a grammar oracle (the printer's template model, re-extracted on every run, is evaluated on every syntactically relevant combination of child shapes and CPython's parser decides each instance) + layout-helper shape rules + construction-site guards for the template preconditions + expression/statement classification of what the desugaring wrappers wrap + delimiter agreement + open-options of the writer; reuses the C10 hole/precedence triples",
+         "Decides the shape-level half of the property: each of the 76 printer templates yields text the Python grammar accepts for every combination of "
+         "present/absent optional parts, empty/one/two-element lists and block/single/nested/empty bodies at nesting depths 0-2 (about 860 instances), except under "
+         "four preconditions (non-empty except/cases/import lists, no default on a vararg) each of which is established at every construction site or by a rejecting "
+         "parser rule; bodies can never print as nothing; append_ret/append_assign wrap only variants whose template is a Python expression; string delimiters agree; "
+         "operands that need parentheses get them; output files are truncated. Five genuine defects found by these rules were repaired (D18, D37-D40).",
+         "That every literal lexeme the lexer accepts is a Python literal is not decided (it is not true: leading zeros, raw newlines in strings); identifiers that are Python keywords are not decided.", "5/C02"),
  "C04": ("traversal census of the constraint generator + constraint census + dispatch totality + operator->protocol-method agreement through the Node->NodeTy->Core->printer chain + strict-lookup Ok-path rule on MIR + stub signatures against a frozen CPython table",
          "Decides the structural necessary conditions of soundness: every AST child the generator takes apart is visited, delegated or rejected "
          "(317 rows; the unvisited ones are reviewed, 4 are genuine findings), every variant is dispatched to a handler arm, every operator is typed by "
